@@ -39,9 +39,29 @@ def replay_shape(ctx, Grid, c, h, reuse=None):
                 continue
             pts.append([xll + (c["x0"] + i) * q, yll + (c["y0"] + j) * q])
             exp.append(e)
+    # points just inside / outside every edge: a lattice point displaced by eps = 2^-27 cell (7.5e-9 of a cell, exactly representable
+    # for these geometries) towards a neighbouring lattice point lies in the footprint (or outside region) of that neighbour
+    eps = csz * 2.0 ** -27
+    tab = c["cell"]
+    for i, col in enumerate(tab):
+        for j, e in enumerate(col):
+            if (c["x0"] + i) % 4 and (c["y0"] + j) % 4:
+                continue            # (points ON an edge are unconstrained in the model, -2; their displaced images are not)
+            for sx, sy in ((-1, 0), (1, 0), (0, -1), (0, 1), (-1, -1), (1, 1), (-1, 1), (1, -1)):
+                if 0 <= i + sx < len(tab) and 0 <= j + sy < len(col) and tab[i + sx][j + sy] != -2:
+                    pts.append([xll + (c["x0"] + i) * q + sx * eps, yll + (c["y0"] + j) * q + sy * eps])
+                    exp.append(tab[i + sx][j + sy])
     pts = np.array(pts)
     p0 = pts.copy()
-    got = g.coord2cell(pts)
+    # any ndarray storage of the same coordinates (C, Fortran, strided view, float32 / integer when exact) is a numpy.ndarray argument
+    from harness.proj import relayout
+    pts_in = relayout(pts, h // 5)
+    try:
+        got = g.coord2cell(pts_in)
+    except Exception as ex:
+        ctx.violation("coord2cell:exception", "%r for a %s array of shape %s (flags C=%s F=%s)" %
+                      (ex, pts_in.dtype, pts_in.shape, pts_in.flags["C_CONTIGUOUS"], pts_in.flags["F_CONTIGUOUS"]), case)
+        return
     bad = np.nonzero(got != np.array(exp))[0]
     if len(bad):
         k = int(bad[0])
